@@ -336,6 +336,7 @@ func (r *Runner) readFault(in *sim.Instance, site string, index uint64) bool {
 	f.left--
 	if int(r.tape())%8 < f.odds {
 		r.feat("log-read-error@" + site)
+		r.W.O.ResetRepeats(in.ID())
 		return true
 	}
 	return false
